@@ -355,3 +355,366 @@ Example C08_ex_keeps_pinned_tests :
   position_to_index [97; 98; 99]%N 1 3 = Ok 3 /\
   position_to_index [97; 98; 10; 99; 100]%N 1 0 = Ok 3.
 Proof. now vm_compute. Qed.
+
+(* ========================================================================================== *)
+(*  PHASE 3: the u32 casts, DocumentState as a state machine, the handler glue                 *)
+(*  Model: Model/C08DocState.v; proofs: Proofs/C08DocStateProofs.v                              *)
+(* ========================================================================================== *)
+Require Import Tables_posconvcasts C08DocState C08DocStateProofs.
+
+(* `lines as u32` / `cols as u32` are the identity on every text with fewer than 2^32 line ends whose every
+   line is narrower than 2^32 UTF-16 code units: there all theorems above hold for the code WITH its casts *)
+Theorem C08_u32_exact_in_bound :
+  forall (t : text) (i : nat), text_fits_u32 t -> index_to_position_u32 t i = index_to_position t i.
+Proof. exact index_to_position_u32_exact. Qed.
+Check C08_u32_exact_in_bound :
+  forall (t : text) (i : nat), text_fits_u32 t -> index_to_position_u32 t i = index_to_position t i.
+Print Assumptions C08_u32_exact_in_bound.
+
+Theorem C08_u32_span_to_range_exact :
+  forall (t : text) (sp : span), text_fits_u32 t -> span_to_range_u32 t sp = span_to_range t sp.
+Proof. exact span_to_range_u32_exact. Qed.
+Check C08_u32_span_to_range_exact :
+  forall (t : text) (sp : span), text_fits_u32 t -> span_to_range_u32 t sp = span_to_range t sp.
+Print Assumptions C08_u32_span_to_range_exact.
+
+Theorem C08_u32_text_edit_exact :
+  forall (s : suggestion) (sp : span) (t : text), text_fits_u32 t -> text_edit_u32 s sp t = text_edit s sp t.
+Proof. exact text_edit_u32_exact. Qed.
+Check C08_u32_text_edit_exact :
+  forall (s : suggestion) (sp : span) (t : text), text_fits_u32 t -> text_edit_u32 s sp t = text_edit s sp t.
+Print Assumptions C08_u32_text_edit_exact.
+
+(* outside the bound: the published position is the exact one reduced modulo 2^32, componentwise *)
+Theorem C08_u32_value :
+  forall (t : text) (i l c : nat), index_to_position t i = Ok (l, c) ->
+  index_to_position_u32 t i = Ok (as_u32 l, as_u32 c) /\ fits_u32 (as_u32 l) /\ fits_u32 (as_u32 c).
+Proof. exact index_to_position_u32_value. Qed.
+Check C08_u32_value :
+  forall (t : text) (i l c : nat), index_to_position t i = Ok (l, c) ->
+  index_to_position_u32 t i = Ok (as_u32 l, as_u32 c) /\ fits_u32 (as_u32 l) /\ fits_u32 (as_u32 c).
+Print Assumptions C08_u32_value.
+
+(* the truncation branch, and that the bound is sharp: with exactly n = 2^32 line ends in front, the
+   character behind them (index n, exact position (n,0)) is published as (0,0), which denotes index 0 <> n *)
+Theorem C08_u32_line_truncation_refuted :
+  forall (rest : text) (n : nat), n = N.to_nat u32_modulus ->
+  let t := repeat NL n ++ rest in
+  n <= length t /\ ~ text_fits_u32 t /\
+  index_to_position t n = Ok (n, 0) /\ index_to_position_u32 t n = Ok (0, 0) /\
+  resolve t (0, 0) = Some 0 /\ n <> 0.
+Proof. exact u32_line_truncation. Qed.
+Check C08_u32_line_truncation_refuted :
+  forall (rest : text) (n : nat), n = N.to_nat u32_modulus ->
+  let t := repeat NL n ++ rest in
+  n <= length t /\ ~ text_fits_u32 t /\
+  index_to_position t n = Ok (n, 0) /\ index_to_position_u32 t n = Ok (0, 0) /\
+  resolve t (0, 0) = Some 0 /\ n <> 0.
+Print Assumptions C08_u32_line_truncation_refuted.
+
+(* ... and with n = 2^32 BMP characters on one line the column wraps to 0 *)
+Theorem C08_u32_column_truncation_refuted :
+  forall (rest : text) (n : nat), n = N.to_nat u32_modulus ->
+  let t := repeat 97%N n ++ rest in
+  n <= length t /\ ~ text_fits_u32 t /\
+  index_to_position t n = Ok (0, n) /\ index_to_position_u32 t n = Ok (0, 0) /\
+  resolve t (0, 0) = Some 0 /\ n <> 0.
+Proof. exact u32_column_truncation. Qed.
+Check C08_u32_column_truncation_refuted :
+  forall (rest : text) (n : nat), n = N.to_nat u32_modulus ->
+  let t := repeat 97%N n ++ rest in
+  n <= length t /\ ~ text_fits_u32 t /\
+  index_to_position t n = Ok (0, n) /\ index_to_position_u32 t n = Ok (0, 0) /\
+  resolve t (0, 0) = Some 0 /\ n <> 0.
+Print Assumptions C08_u32_column_truncation_refuted.
+
+(* DocumentState: generate_code_actions is read-only (the linter config it fills is restored) and answers from
+   the fields as they are now *)
+Theorem C08_state_code_actions_readonly :
+  forall (doc : Type) (source : doc -> text) (cfg : Type) (fill : cfg -> cfg) (ctx_key : dlint -> doc -> N)
+         (url_at : doc -> nat -> option span) (s : dstate doc cfg) (r : range) (fs : bool),
+  generate_code_actions doc source cfg fill ctx_key url_at s r fs
+  = (s, code_actions_of doc source cfg fill ctx_key url_at (ds_doc s) (ds_lint s) (ds_config s) (ds_ignored s) r fs).
+Proof. exact generate_code_actions_spec. Qed.
+Check C08_state_code_actions_readonly :
+  forall (doc : Type) (source : doc -> text) (cfg : Type) (fill : cfg -> cfg) (ctx_key : dlint -> doc -> N)
+         (url_at : doc -> nat -> option span) (s : dstate doc cfg) (r : range) (fs : bool),
+  generate_code_actions doc source cfg fill ctx_key url_at s r fs
+  = (s, code_actions_of doc source cfg fill ctx_key url_at (ds_doc s) (ds_lint s) (ds_config s) (ds_ignored s) r fs).
+Print Assumptions C08_state_code_actions_readonly.
+
+Theorem C08_state_diagnostics_readonly :
+  forall (doc : Type) (source : doc -> text) (cfg : Type) (fill : cfg -> cfg) (ctx_key : dlint -> doc -> N)
+         (s : dstate doc cfg) (sev : nat),
+  generate_diagnostics doc source cfg fill ctx_key s sev
+  = (s, diagnostics_of doc source cfg fill ctx_key (ds_doc s) (ds_lint s) (ds_config s) (ds_ignored s) sev).
+Proof. exact generate_diagnostics_spec. Qed.
+Check C08_state_diagnostics_readonly :
+  forall (doc : Type) (source : doc -> text) (cfg : Type) (fill : cfg -> cfg) (ctx_key : dlint -> doc -> N)
+         (s : dstate doc cfg) (sev : nat),
+  generate_diagnostics doc source cfg fill ctx_key s sev
+  = (s, diagnostics_of doc source cfg fill ctx_key (ds_doc s) (ds_lint s) (ds_config s) (ds_ignored s) sev).
+Print Assumptions C08_state_diagnostics_readonly.
+
+(* the state after ANY history is what its operations say (last document set, last linter set, the keys
+   ignored - each against the document of its moment); requests and diagnostics leave no trace *)
+Theorem C08_history_state :
+  forall (doc : Type) (source : doc -> text) (cfg : Type) (fill : cfg -> cfg) (ctx_key : dlint -> doc -> N)
+         (url_at : doc -> nat -> option span) (h : list (op doc cfg)) (s : dstate doc cfg),
+  fst (run doc source cfg fill ctx_key url_at s h)
+  = mkdstate (doc_after doc cfg (ds_doc s) h) (lint_after doc cfg (ds_lint s) h)
+             (config_after doc cfg (ds_config s) h) (ignored_after doc cfg ctx_key (ds_doc s) (ds_ignored s) h).
+Proof. exact run_state. Qed.
+Check C08_history_state :
+  forall (doc : Type) (source : doc -> text) (cfg : Type) (fill : cfg -> cfg) (ctx_key : dlint -> doc -> N)
+         (url_at : doc -> nat -> option span) (h : list (op doc cfg)) (s : dstate doc cfg),
+  fst (run doc source cfg fill ctx_key url_at s h)
+  = mkdstate (doc_after doc cfg (ds_doc s) h) (lint_after doc cfg (ds_lint s) h)
+             (config_after doc cfg (ds_config s) h) (ignored_after doc cfg ctx_key (ds_doc s) (ds_ignored s) h).
+Print Assumptions C08_history_state.
+
+(* THE HISTORY PROPERTY: for every history, generate_code_actions answers from the CURRENT document only -
+   its answer is the single-shot function of the last document set (and the current linter / ignore set) *)
+Theorem C08_history_code_actions :
+  forall (doc : Type) (source : doc -> text) (cfg : Type) (fill : cfg -> cfg) (ctx_key : dlint -> doc -> N)
+         (url_at : doc -> nat -> option span) (s0 : dstate doc cfg) (h : list (op doc cfg)) (r : range) (fs : bool),
+  snd (step doc source cfg fill ctx_key url_at (fst (run doc source cfg fill ctx_key url_at s0 h)) (OCodeActions r fs))
+  = RActions (code_actions_of doc source cfg fill ctx_key url_at
+                (doc_after doc cfg (ds_doc s0) h) (lint_after doc cfg (ds_lint s0) h)
+                (config_after doc cfg (ds_config s0) h)
+                (ignored_after doc cfg ctx_key (ds_doc s0) (ds_ignored s0) h) r fs).
+Proof. exact history_code_actions. Qed.
+Check C08_history_code_actions :
+  forall (doc : Type) (source : doc -> text) (cfg : Type) (fill : cfg -> cfg) (ctx_key : dlint -> doc -> N)
+         (url_at : doc -> nat -> option span) (s0 : dstate doc cfg) (h : list (op doc cfg)) (r : range) (fs : bool),
+  snd (step doc source cfg fill ctx_key url_at (fst (run doc source cfg fill ctx_key url_at s0 h)) (OCodeActions r fs))
+  = RActions (code_actions_of doc source cfg fill ctx_key url_at
+                (doc_after doc cfg (ds_doc s0) h) (lint_after doc cfg (ds_lint s0) h)
+                (config_after doc cfg (ds_config s0) h)
+                (ignored_after doc cfg ctx_key (ds_doc s0) (ds_ignored s0) h) r fs).
+Print Assumptions C08_history_code_actions.
+
+(* ... for every request INSIDE a history: the answer at position |h1| of the run *)
+Theorem C08_history_every_answer :
+  forall (doc : Type) (source : doc -> text) (cfg : Type) (fill : cfg -> cfg) (ctx_key : dlint -> doc -> N)
+         (url_at : doc -> nat -> option span) (s0 : dstate doc cfg) (h1 h2 : list (op doc cfg)) (r : range) (fs : bool),
+  nth_error (snd (run doc source cfg fill ctx_key url_at s0 (h1 ++ OCodeActions r fs :: h2))) (length h1)
+  = Some (RActions (code_actions_of doc source cfg fill ctx_key url_at
+                      (doc_after doc cfg (ds_doc s0) h1) (lint_after doc cfg (ds_lint s0) h1)
+                      (config_after doc cfg (ds_config s0) h1)
+                      (ignored_after doc cfg ctx_key (ds_doc s0) (ds_ignored s0) h1) r fs)).
+Proof. exact history_every_answer. Qed.
+Check C08_history_every_answer :
+  forall (doc : Type) (source : doc -> text) (cfg : Type) (fill : cfg -> cfg) (ctx_key : dlint -> doc -> N)
+         (url_at : doc -> nat -> option span) (s0 : dstate doc cfg) (h1 h2 : list (op doc cfg)) (r : range) (fs : bool),
+  nth_error (snd (run doc source cfg fill ctx_key url_at s0 (h1 ++ OCodeActions r fs :: h2))) (length h1)
+  = Some (RActions (code_actions_of doc source cfg fill ctx_key url_at
+                      (doc_after doc cfg (ds_doc s0) h1) (lint_after doc cfg (ds_lint s0) h1)
+                      (config_after doc cfg (ds_config s0) h1)
+                      (ignored_after doc cfg ctx_key (ds_doc s0) (ds_ignored s0) h1) r fs)).
+Print Assumptions C08_history_every_answer.
+
+Theorem C08_history_diagnostics :
+  forall (doc : Type) (source : doc -> text) (cfg : Type) (fill : cfg -> cfg) (ctx_key : dlint -> doc -> N)
+         (url_at : doc -> nat -> option span) (s0 : dstate doc cfg) (h : list (op doc cfg)) (sev : nat),
+  snd (step doc source cfg fill ctx_key url_at (fst (run doc source cfg fill ctx_key url_at s0 h)) (ODiagnostics sev))
+  = RDiagnostics (diagnostics_of doc source cfg fill ctx_key
+                    (doc_after doc cfg (ds_doc s0) h) (lint_after doc cfg (ds_lint s0) h)
+                    (config_after doc cfg (ds_config s0) h)
+                    (ignored_after doc cfg ctx_key (ds_doc s0) (ds_ignored s0) h) sev).
+Proof. exact history_diagnostics. Qed.
+Check C08_history_diagnostics :
+  forall (doc : Type) (source : doc -> text) (cfg : Type) (fill : cfg -> cfg) (ctx_key : dlint -> doc -> N)
+         (url_at : doc -> nat -> option span) (s0 : dstate doc cfg) (h : list (op doc cfg)) (sev : nat),
+  snd (step doc source cfg fill ctx_key url_at (fst (run doc source cfg fill ctx_key url_at s0 h)) (ODiagnostics sev))
+  = RDiagnostics (diagnostics_of doc source cfg fill ctx_key
+                    (doc_after doc cfg (ds_doc s0) h) (lint_after doc cfg (ds_lint s0) h)
+                    (config_after doc cfg (ds_config s0) h)
+                    (ignored_after doc cfg ctx_key (ds_doc s0) (ds_ignored s0) h) sev).
+Print Assumptions C08_history_diagnostics.
+
+(* END TO END OVER HISTORIES (u32 casts included): after any history, a request at any character i of any
+   lint visible for the CURRENT document, at the position harper publishes for i, is answered (no panic)
+   with that lint's HarperIgnoreLint command and, per suggestion, a TextEdit carrying the diagnostic's range
+   whose application by a client to the current text is Suggestion::apply on the lint's span.
+   Premises: the current text is within the u32 bound; the visible lints and Url tokens lie inside the text *)
+Theorem C08_history_code_action_at_published :
+  forall (doc : Type) (source : doc -> text) (cfg : Type) (fill : cfg -> cfg) (ctx_key : dlint -> doc -> N)
+         (url_at : doc -> nat -> option span) (s0 : dstate doc cfg) (h : list (op doc cfg))
+         (l : dlint) (i : nat) (fs : bool),
+  let d := doc_after doc cfg (ds_doc s0) h in
+  let t := source d in
+  let vis := visible_lints doc cfg fill ctx_key d (lint_after doc cfg (ds_lint s0) h)
+               (config_after doc cfg (ds_config s0) h) (ignored_after doc cfg ctx_key (ds_doc s0) (ds_ignored s0) h) in
+  text_fits_u32 t ->
+  Forall (fun x => span_in (length t) (lspan x)) vis ->
+  (forall j sp, url_at d j = Some sp -> span_in (length t) sp) ->
+  In l vis -> sstart (lspan l) <= i < send (lspan l) ->
+  exists p acts,
+    index_to_position_u32 t i = Ok p /\ resolve t p = Some i /\
+    snd (step doc source cfg fill ctx_key url_at (fst (run doc source cfg fill ctx_key url_at s0 h))
+              (OCodeActions (p, p) fs)) = RActions (Ok acts) /\
+    In (AIgnore l) acts /\
+    forall s, In s (lsugs l) ->
+      exists r nt out, In (AEdit r nt (ltag l)) acts /\ span_to_range_u32 t (lspan l) = Ok r /\
+                       client_apply t r nt = Some out /\ apply s (lspan l) t = Ok out.
+Proof. exact history_code_action_at_published. Qed.
+Check C08_history_code_action_at_published :
+  forall (doc : Type) (source : doc -> text) (cfg : Type) (fill : cfg -> cfg) (ctx_key : dlint -> doc -> N)
+         (url_at : doc -> nat -> option span) (s0 : dstate doc cfg) (h : list (op doc cfg))
+         (l : dlint) (i : nat) (fs : bool),
+  let d := doc_after doc cfg (ds_doc s0) h in
+  let t := source d in
+  let vis := visible_lints doc cfg fill ctx_key d (lint_after doc cfg (ds_lint s0) h)
+               (config_after doc cfg (ds_config s0) h) (ignored_after doc cfg ctx_key (ds_doc s0) (ds_ignored s0) h) in
+  text_fits_u32 t ->
+  Forall (fun x => span_in (length t) (lspan x)) vis ->
+  (forall j sp, url_at d j = Some sp -> span_in (length t) sp) ->
+  In l vis -> sstart (lspan l) <= i < send (lspan l) ->
+  exists p acts,
+    index_to_position_u32 t i = Ok p /\ resolve t p = Some i /\
+    snd (step doc source cfg fill ctx_key url_at (fst (run doc source cfg fill ctx_key url_at s0 h))
+              (OCodeActions (p, p) fs)) = RActions (Ok acts) /\
+    In (AIgnore l) acts /\
+    forall s, In s (lsugs l) ->
+      exists r nt out, In (AEdit r nt (ltag l)) acts /\ span_to_range_u32 t (lspan l) = Ok r /\
+                       client_apply t r nt = Some out /\ apply s (lspan l) t = Ok out.
+Print Assumptions C08_history_code_action_at_published.
+
+(* the diagnostics published after any history: one per visible lint of the current document, with the
+   configured severity, its range read as LSP positions covering exactly the lint's characters *)
+Theorem C08_history_diagnostics_sound :
+  forall (doc : Type) (source : doc -> text) (cfg : Type) (fill : cfg -> cfg) (ctx_key : dlint -> doc -> N)
+         (url_at : doc -> nat -> option span) (s0 : dstate doc cfg) (h : list (op doc cfg)) (sev : nat),
+  let d := doc_after doc cfg (ds_doc s0) h in
+  let t := source d in
+  let vis := visible_lints doc cfg fill ctx_key d (lint_after doc cfg (ds_lint s0) h)
+               (config_after doc cfg (ds_config s0) h) (ignored_after doc cfg ctx_key (ds_doc s0) (ds_ignored s0) h) in
+  text_fits_u32 t ->
+  Forall (fun x => span_in (length t) (lspan x)) vis ->
+  exists ds, snd (step doc source cfg fill ctx_key url_at (fst (run doc source cfg fill ctx_key url_at s0 h))
+                       (ODiagnostics sev)) = RDiagnostics (Ok ds) /\
+    forall x, In x vis ->
+      exists pa pb, In ((pa, pb), severity_to_lsp sev, ltag x) ds /\
+                    resolve t pa = Some (sstart (lspan x)) /\ resolve t pb = Some (send (lspan x)).
+Proof. exact history_diagnostics_sound. Qed.
+Check C08_history_diagnostics_sound :
+  forall (doc : Type) (source : doc -> text) (cfg : Type) (fill : cfg -> cfg) (ctx_key : dlint -> doc -> N)
+         (url_at : doc -> nat -> option span) (s0 : dstate doc cfg) (h : list (op doc cfg)) (sev : nat),
+  let d := doc_after doc cfg (ds_doc s0) h in
+  let t := source d in
+  let vis := visible_lints doc cfg fill ctx_key d (lint_after doc cfg (ds_lint s0) h)
+               (config_after doc cfg (ds_config s0) h) (ignored_after doc cfg ctx_key (ds_doc s0) (ds_ignored s0) h) in
+  text_fits_u32 t ->
+  Forall (fun x => span_in (length t) (lspan x)) vis ->
+  exists ds, snd (step doc source cfg fill ctx_key url_at (fst (run doc source cfg fill ctx_key url_at s0 h))
+                       (ODiagnostics sev)) = RDiagnostics (Ok ds) /\
+    forall x, In x vis ->
+      exists pa pb, In ((pa, pb), severity_to_lsp sev, ltag x) ds /\
+                    resolve t pa = Some (sstart (lspan x)) /\ resolve t pb = Some (send (lspan x)).
+Print Assumptions C08_history_diagnostics_sound.
+
+(* backend.rs: the code_action handler = generate_code_actions of the url's DocumentState, [] for an unknown url *)
+Theorem C08_handler_code_action :
+  forall (doc : Type) (source : doc -> text) (cfg : Type) (fill : cfg -> cfg) (ctx_key : dlint -> doc -> N)
+         (url_at : doc -> nat -> option span) (o : option (dstate doc cfg)) (r : range) (fs : bool),
+  handle_code_action doc source cfg fill ctx_key url_at o r fs =
+    match o with
+    | None => (None, Ok [])
+    | Some s => (Some s, code_actions_of doc source cfg fill ctx_key url_at
+                           (ds_doc s) (ds_lint s) (ds_config s) (ds_ignored s) r fs)
+    end.
+Proof. exact handle_code_action_spec. Qed.
+Check C08_handler_code_action :
+  forall (doc : Type) (source : doc -> text) (cfg : Type) (fill : cfg -> cfg) (ctx_key : dlint -> doc -> N)
+         (url_at : doc -> nat -> option span) (o : option (dstate doc cfg)) (r : range) (fs : bool),
+  handle_code_action doc source cfg fill ctx_key url_at o r fs =
+    match o with
+    | None => (None, Ok [])
+    | Some s => (Some s, code_actions_of doc source cfg fill ctx_key url_at
+                           (ds_doc s) (ds_lint s) (ds_config s) (ds_ignored s) r fs)
+    end.
+Print Assumptions C08_handler_code_action.
+
+(* backend.rs: HarperIgnoreLint sent back with the lint JSON a code action embedded (premise: Lint survives the
+   serde round trip - monitored on every embedded lint): the lint's context key joins the ignore set, nothing
+   else changes, the diagnostics published in reply are the current document's without that lint *)
+Theorem C08_handler_ignore_embedded :
+  forall (doc : Type) (source : doc -> text) (cfg : Type) (fill : cfg -> cfg) (ctx_key : dlint -> doc -> N)
+         (json : Type) (lint_to_json : dlint -> json) (lint_of_json : json -> option dlint),
+  (forall l, lint_of_json (lint_to_json l) = Some l) ->
+  forall (s : dstate doc cfg) (l : dlint) (sev : nat),
+  let ign := ctx_key l (ds_doc s) :: ds_ignored s in
+  handle_ignore doc source cfg fill ctx_key json lint_of_json (Some s) (lint_to_json l) sev
+  = (Some (mkdstate (ds_doc s) (ds_lint s) (ds_config s) ign),
+     Some (diagnostics_of doc source cfg fill ctx_key (ds_doc s) (ds_lint s) (ds_config s) ign sev))
+  /\ ~ In l (visible_lints doc cfg fill ctx_key (ds_doc s) (ds_lint s) (ds_config s) ign).
+Proof. exact handle_ignore_embedded. Qed.
+Check C08_handler_ignore_embedded :
+  forall (doc : Type) (source : doc -> text) (cfg : Type) (fill : cfg -> cfg) (ctx_key : dlint -> doc -> N)
+         (json : Type) (lint_to_json : dlint -> json) (lint_of_json : json -> option dlint),
+  (forall l, lint_of_json (lint_to_json l) = Some l) ->
+  forall (s : dstate doc cfg) (l : dlint) (sev : nat),
+  let ign := ctx_key l (ds_doc s) :: ds_ignored s in
+  handle_ignore doc source cfg fill ctx_key json lint_of_json (Some s) (lint_to_json l) sev
+  = (Some (mkdstate (ds_doc s) (ds_lint s) (ds_config s) ign),
+     Some (diagnostics_of doc source cfg fill ctx_key (ds_doc s) (ds_lint s) (ds_config s) ign sev))
+  /\ ~ In l (visible_lints doc cfg fill ctx_key (ds_doc s) (ds_lint s) (ds_config s) ign).
+Print Assumptions C08_handler_ignore_embedded.
+
+(* ------------------------------------------------------------------------------------------ *)
+(*  non-vacuity of the phase-3 theorems                                                          *)
+(* ------------------------------------------------------------------------------------------ *)
+Example C08_ex_u32 :
+  text_fits_u32 ex_text /\ index_to_position_u32 ex_text 6 = Ok (1, 3) /\
+  as_u32 5 = 5 /\ N.to_nat u32_modulus <> 0 /\ severity_to_lsp 3 = 4 /\ severity_to_lsp 0 = 1.
+Proof.
+  split; [split; unfold fits_u32; now vm_compute|]. split; [now vm_compute|]. split; [now vm_compute|].
+  split; [exact modulus_nat_nonzero|]. now vm_compute.
+Qed.
+
+(* a history on the driver's instantiation: "teh a" (one spelling lint), diagnostics, a request, then the
+   document is replaced by "a\nteh 😀 b" (the spelling lint now on line 1, a second lint on the astral
+   character); the request at 'e' of "teh" - index 3, published position (1,1) - is answered from the NEW text *)
+Definition ex_l1 : dlint := mkdlint (mkspan 0 3) 63 [ReplaceWith [116; 104; 101]%N] true 1.
+Definition ex_l2 : dlint := mkdlint (mkspan 2 5) 63 [ReplaceWith [116; 104; 101]%N; Remove] true 1.
+Definition ex_l3 : dlint := mkdlint (mkspan 6 7) 31 [InsertAfter [33]%N] false 2.
+Definition ex_d0 : ddoc := mkddoc 0 [] [] [].
+Definition ex_d1 : ddoc := mkddoc 1 [116; 101; 104; 32; 97]%N [(ex_l1, 11%N)] [].
+Definition ex_d2 : ddoc := mkddoc 2 [97; 10; 116; 101; 104; 32; 128512; 32; 98]%N [(ex_l2, 12%N); (ex_l3, 13%N)] [].
+Definition ex_s0 : dstate ddoc nat := mkdstate ex_d0 drv_lint 0 [].
+Definition ex_h : list (op ddoc nat) :=
+  [OSetDocument ex_d1; ODiagnostics 3; OCodeActions ((0, 1), (0, 1)) false; OSetDocument ex_d2].
+
+Example C08_ex_history :
+  let fill := fun _ : nat => 1 in
+  let key := drv_ctx_key [] in
+  let d := doc_after ddoc nat (ds_doc ex_s0) ex_h in
+  let t := dd_text d in
+  let vis := visible_lints ddoc nat fill key d (lint_after ddoc nat (ds_lint ex_s0) ex_h)
+               (config_after ddoc nat (ds_config ex_s0) ex_h)
+               (ignored_after ddoc nat key (ds_doc ex_s0) (ds_ignored ex_s0) ex_h) in
+  d = ex_d2 /\ vis = [ex_l2; ex_l3] /\ text_fits_u32 t /\
+  Forall (fun x => span_in (length t) (lspan x)) vis /\
+  (forall j sp, drv_url_at d j = Some sp -> span_in (length t) sp) /\
+  In ex_l2 vis /\ sstart (lspan ex_l2) <= 3 < send (lspan ex_l2) /\
+  index_to_position_u32 t 3 = Ok (1, 1) /\
+  snd (step ddoc dd_text nat fill key drv_url_at (fst (run ddoc dd_text nat fill key drv_url_at ex_s0 ex_h))
+            (OCodeActions ((1, 1), (1, 1)) false))
+  = RActions (Ok [AEdit ((1, 0), (1, 3)) [116; 104; 101]%N 1; AEdit ((1, 0), (1, 3)) [] 1; AIgnore ex_l2;
+                  AAddUser [116; 101; 104]%N; AAddFile [116; 101; 104]%N]) /\
+  (* the earlier request, inside the history, was answered from the text of ITS moment *)
+  nth_error (snd (run ddoc dd_text nat fill key drv_url_at ex_s0 ex_h)) 2
+  = Some (RActions (Ok [AEdit ((0, 0), (0, 3)) [116; 104; 101]%N 1; AIgnore ex_l1;
+                        AAddUser [116; 101; 104]%N; AAddFile [116; 101; 104]%N])) /\
+  (* ignoring ex_l2 (key 12 against ex_d2) removes it from the next answer and from the diagnostics *)
+  snd (step ddoc dd_text nat fill key drv_url_at
+            (fst (run ddoc dd_text nat fill key drv_url_at ex_s0 (ex_h ++ [OIgnore ex_l2]))) (ODiagnostics 3))
+  = RDiagnostics (Ok [(((1, 4), (1, 6)), 4, 2%N)]).
+Proof.
+  cbv zeta. split; [reflexivity|]. split; [now vm_compute|].
+  split; [split; unfold fits_u32; now vm_compute|].
+  split; [repeat constructor; cbn; lia|].
+  split; [intros j sp H; vm_compute in H; discriminate H|].
+  split; [now left|]. split; [cbn; lia|]. now vm_compute.
+Qed.
